@@ -477,7 +477,9 @@ pub fn execute(program: &Program, mode: &mut Mode, budget_mult: usize) -> Result
     if !tr.crashed && !tr.exited && program.final_probe && sys.blocked.is_empty() {
         let mut n = 0;
         tr.final_texts = texts.clone();
-        let battery = if program.final_battery { final_battery(&texts) } else { final_battery(&texts).into_iter().filter(|(m, _)| m == "textDocument/formatting").collect() };
+        let battery: Vec<(String, Value)> = if program.final_battery { final_battery(&texts) } else { final_battery(&texts).into_iter().filter(|(m, _)| m == "textDocument/formatting").collect() };
+        // the final phase has its own step allowance (it grows with the library, not with the program)
+        let final_budget = steps + battery.len() * 8 + 200;
         for (method, params) in battery {
             n += 1;
             let rid: RequestId = (900_000 + n as i32).into();
@@ -498,7 +500,7 @@ pub fn execute(program: &Program, mode: &mut Mode, budget_mult: usize) -> Result
                     _ => break,
                 }
                 steps += 1;
-                if steps > budget * 4 {
+                if steps > final_budget {
                     let _ = sys.finish();
                     return Err(SchedError::Budget(tr.choices.clone()));
                 }
@@ -568,10 +570,12 @@ pub fn execute(program: &Program, mode: &mut Mode, budget_mult: usize) -> Result
 /// started server on the same texts.
 pub fn final_battery(texts: &BTreeMap<String, String>) -> Vec<(String, Value)> {
     let mut v = vec![];
+    // formatting of every note (the token oracle), the rest of the battery for at most 12 of them
+    let few: BTreeMap<&String, &String> = texts.iter().take(12).collect();
     for (u, _text) in texts {
         v.push(("textDocument/formatting".to_string(), json!({"textDocument": {"uri": u}, "options": {"tabSize": 2, "insertSpaces": true}})));
     }
-    for (u, text) in texts {
+    for (u, text) in few {
         for m in ["textDocument/references", "textDocument/inlayHint", "textDocument/documentSymbol"] {
             v.push((m.to_string(), req_params(m, u, 0, 0)));
         }
@@ -1092,7 +1096,8 @@ pub fn generate(seed: u64, thorough: bool, faults: bool) -> GenOut {
     let mut swarm = Rng::stream(seed, "swarm");
     let mut work = Rng::stream(seed, "workload");
     let (max_notes, min_msgs, max_msgs) = if thorough { (8, 6, 30) } else { (5, 4, 14) };
-    let n_notes = swarm.range(1, max_notes);
+    let big_library = swarm.chance(1, 100);
+    let n_notes = if big_library { swarm.range(40, 120) } else { swarm.range(1, max_notes) };
     let with_dirs = swarm.chance(1, 4);
     let refs_ext = if swarm.chance(1, 5) { ".md" } else { "" }.to_string();
     let n_msgs = swarm.range(min_msgs, max_msgs);
@@ -1115,7 +1120,7 @@ pub fn generate(seed: u64, thorough: bool, faults: bool) -> GenOut {
     if key_flavour != 0 {
         targets.push("readme".to_string());
     }
-    let cfg = GenCfg { keys: lib_keys.clone(), targets, max_blocks: swarm.range(2, 6), max_depth: 2 };
+    let cfg = GenCfg { keys: lib_keys.clone(), targets, max_blocks: if big_library { 2 } else { swarm.range(2, 6) }, max_depth: 2 };
     let mut versions: BTreeMap<String, i64> = BTreeMap::new();
     let mut big_used = false;
     let mut docs: BTreeMap<String, Doc> = BTreeMap::new();
